@@ -58,11 +58,30 @@ def is_exc_filter(sh: CompShape, var_only: bool = True) -> tuple[bool, bool]:
     return ok, neg
 
 
+def find_initialize(an: Analysis) -> FunctionInfo:
+    """The coroutine that enters ONE disposable (awaits `<its parameter>.__aenter__()`) - a method of Disposables in
+    the pinned tree; found by what it does, so that it may be renamed or moved to module level."""
+    prog = an.prog
+    mod = prog.module("context.disposables")
+    found = []
+    for f in prog.scan_functions():
+        if f.module is not mod or not f.is_async or f.name == "__aenter__":
+            continue
+        params = set(f.param_names())
+        for n in f.own_nodes():
+            if isinstance(n, ast.Await) and isinstance(n.value, ast.Call) and isinstance(n.value.func, ast.Attribute) and n.value.func.attr == "__aenter__" and isinstance(n.value.func.value, ast.Name) and n.value.func.value.id in params:
+                found.append(f)
+                break
+    if len(found) != 1:
+        raise AnalysisError(f"C08: expected one coroutine entering a single disposable in haiway.context.disposables, found {[f.short for f in found]}")
+    return found[0]
+
+
 def check(an: Analysis) -> None:
     prog = an.prog
     aenter = prog.fn(f"{D}.__aenter__")
     aexit = prog.fn(f"{D}.__aexit__")
-    init_ = prog.fn(f"{D}._initialize")
+    init_ = find_initialize(an)
     de, dx = Deps(prog, aenter), Deps(prog, aexit)
     ge, gx = an.cfg(aenter), an.cfg(aexit)
 
